@@ -128,7 +128,7 @@ def run(ctx):
     args = [(ctx.rng.randrange(1 << 30), ctx.rng.choice([60, 150, 300, ctx.n(400, 800)])) for _ in range(ctx.n(150, 3000))]
     results = core.pmap(corr_case, args)
     collect(results, corr, failures)
-    core.lockstep(corr, results, canon_model=None, shards=16)
+    core.lockstep(corr, results, canon_model=None, shards=16, timeout=ctx.n(150, 1500))
     # --- oracle-only histories (longer; deeper trees, more pruning) — more of them when the proof or the tie broke
     deep = (not proof.ok or not corr.ok) and not failures
     n_extra = ctx.n(60, 600) * (4 if deep else 1)
